@@ -35,16 +35,21 @@ def setup():
         pass  # the extracted model appears with the first coq_check
 
 
-def _context(path, lineno):
-    """the VALS line that precedes line number `lineno` (0-based) of the harness output"""
-    last = None
-    with open(path, errors="replace") as f:
-        for i, l in enumerate(f):
-            if l.startswith("VALS "):
-                last = l.rstrip("\n")
-            if i >= lineno:
-                break
-    return last
+def _replay(r, replay):
+    """re-run the concrete input of a replay file on the current working tree"""
+    import json
+    d = json.load(open(replay))
+    cmd = d.get("replay_cmd", "")
+    m = re.search(r"c20_stats (pct|hist) (.*)$", cmd)
+    if not m:
+        return None
+    ex = (vlib.build_harness("c20_stats", "asan", need_lib=False, extra=ASAN_EXTRA) if "harness-asan" in cmd
+          else vlib.build_harness("c20_stats", "rel", need_lib=True))
+    rc, out = vlib.sh("%s %s %s" % (ex, m.group(1), m.group(2)), timeout=300)
+    if rc != 0 or "FAIL" in out:
+        r.violation("replayed", {"kind": "replayed input still violates the property", "input": d.get("input"),
+                                 "output": out[-1500:], "replay_cmd": "%s %s %s" % (ex, m.group(1), m.group(2))})
+    return out
 
 
 def _parse_fail(l):
@@ -92,6 +97,16 @@ def _run_harness(r, exe, tier, label, outpath):
 
 def run(tier, replay=None):
     r = vlib.Run("C20", tier)
+    if replay:
+        # 1. the concrete (shrunk) input of the replay file, 2. the whole run with the seed that produced it
+        try:
+            import json
+            seed = json.load(open(replay)).get("seed")
+            if seed is not None and "VERIF_SEED" not in os.environ:
+                r.seed = int(seed)
+        except (OSError, ValueError):
+            pass
+        _replay(r, replay)
     work = os.path.join(vlib.WORK, "c20")
     os.makedirs(work, exist_ok=True)
     # 2. Coq: translated kernels + theorems (+ extraction target, built even if a proof breaks)
@@ -225,4 +240,12 @@ def run(tier, replay=None):
                      "PrimFloat model is bit-exact (checked on every line)",
                      "off the dyadic grid the direct oracle accepts the neighbouring position when the exact position is within "
                      "1e-9 of an integer (the model comparison stays bit-exact there)"]
+    if not r.violations:
+        # the raw implementation output is large (thorough: several 100 MB); kept only when something failed
+        for path in (out_rel, out_asan):
+            for q in (path, path + ".err"):
+                try:
+                    os.remove(q)
+                except OSError:
+                    pass
     return r.finish("proof")
